@@ -380,7 +380,7 @@ pub fn run_scenario(wire: &[u8], ending: Ending, h3_side: usize, seed: u64) -> O
                     ..Default::default()
                 },
                 split: false,
-                finish: true,
+                ..Default::default()
             },
             ..Default::default()
         };
@@ -406,7 +406,7 @@ pub fn run_scenario(wire: &[u8], ending: Ending, h3_side: usize, seed: u64) -> O
                     ..Default::default()
                 },
                 split: false,
-                finish: true,
+                ..Default::default()
             }],
             ..Default::default()
         };
